@@ -30,44 +30,95 @@ def run(rep, prog, tier):
     r3(rep, prog)
 
 
+def publish_sites(prog, static):
+    """functions (and blocks) containing a call to Directory::atomic_write whose path argument
+    flows from the given static — found by provenance, not by function name"""
+    aw = family(prog, D + "atomic_write")
+    out = {}
+    for (b, bi, t) in prog.who_calls(aw):
+        leaves = arg_provenance(b, t, 1)
+        if ("static", static) in leaves:
+            out.setdefault(b.id, []).append(bi)
+    return out
+
+
+def bool_param_consts(prog, fid):
+    """bool parameters of fid that receive the same constant at every call site: local -> '0'/'1'"""
+    body = prog.body(fid)
+    known = {}
+    if body is None:
+        return known
+    sites = prog.who_calls({fid})
+    for l in range(1, body.argc + 1):
+        if body.local_ty_str(l) != "bool" or not sites:
+            continue
+        vals = set()
+        for (cb, cbi, ct) in sites:
+            o = ct["args"][l - 1] if l - 1 < len(ct["args"]) else {}
+            vals.add(o.get("v") if "v" in o else None)
+        if len(vals) == 1 and None not in vals:
+            known[l] = vals.pop()
+    return known
+
+
+META = "tantivy::core::META_FILEPATH"
+MANAGED = "tantivy::core::MANAGED_FILEPATH"
+
+
+def meta_publishers(prog):
+    return publish_sites(prog, META)
+
+
 def r1(rep, prog):
-    fid = SU + "save_metas"
+    R = "C01-R1"
+    from ..model import feasible_edges
     sync = family(prog, D + "sync_directory")
     aw = family(prog, D + "atomic_write")
-    rule_precede(rep, prog, "C01-R1", fid, sync, aw, "sync_directory", "atomic_write", a_ok=True)
-    rule_result_checked(rep, prog, "C01-R1", fid, aw, "atomic_write")
-    rule_result_checked(rep, prog, "C01-R1", fid, sync, "sync_directory")
+    pubs = meta_publishers(prog)
+    if not rep.check(len(pubs) >= 1, R, "meta.json publisher found", "%s" % [short(p) for p in pubs], "cannot establish: no call to Directory::atomic_write with META_FILEPATH found"):
+        return
+    for fid, blocks in sorted(pubs.items()):
+        body = prog.body(fid)
+        known = bool_param_consts(prog, fid)
+        _, edges = feasible_edges(body, known=known)
+        A = []
+        for b, t in calls_to(prog, body, sync):
+            evs, _ = ok_continuation_events(body, b)
+            A.extend(evs)
+        B = [Ev(b, "term", what="atomic_write(meta.json)") for b in blocks]
+        bad = must_precede(body, A, B, edges=edges) if A else B
+        key = "%s: sync_directory before atomic_write(meta.json)" % short(fid)
+        if bad:
+            p = witness_path(body, bad[0].b, A)
+            rep.fail(R, key, "the atomic replace of meta.json is reachable without a successful directory sync before it%s: the new meta can become durable while "
+                     "directory entries of the files it references are not" % (" (bool parameters specialised from call sites: %s)" % known if known else ""),
+                     site=site(body, bad[0].b), path=path_spans(body, p))
+        else:
+            rep.ok(R, key, "every feasible path to the replace crosses the Ok-continuation of sync_directory (%d sync site(s)%s)" % (len(A), ", params fixed by all callers: %s" % known if known else ""), site=site(body, blocks[0]))
+        rule_result_checked(rep, prog, R, fid, aw, "atomic_write", key="%s: result of atomic_write is checked" % short(fid))
+        rule_result_checked(rep, prog, R, fid, sync, "sync_directory", key="%s: result of sync_directory is checked" % short(fid))
 
 
 def r2(rep, prog):
+    R = "C01-R2"
     aw = family(prog, D + "atomic_write")
-    allowed = {
-        SU + "save_metas": "the commit point (meta.json)",
-        "tantivy::directory::managed_directory::save_managed_paths": "the managed-file list (.managed.json)",
-        MD + "atomic_write": "delegation to the wrapped directory after registration",
-    }
-    ok, callers = rule_who_may_call(rep, prog, "C01-R2", aw, "Directory::atomic_write", allowed)
-    # path argument provenance
-    for fid, static in ((SU + "save_metas", "tantivy::core::META_FILEPATH"),
-                        ("tantivy::directory::managed_directory::save_managed_paths", "tantivy::core::MANAGED_FILEPATH")):
-        body = prog.body(fid)
-        if body is None:
+    pubs = meta_publishers(prog)
+    mans = publish_sites(prog, MANAGED)
+    rep.check(len(pubs) == 1, R, "meta.json has a single publisher", "%s" % [short(p) for p in pubs],
+              "%d functions replace meta.json (%s): the commit point is no longer written in one place" % (len(pubs), sorted(short(p) for p in pubs)))
+    rep.check(len(mans) == 1, R, ".managed.json has a single publisher", "%s" % [short(p) for p in mans],
+              "%d functions replace .managed.json (%s)" % (len(mans), sorted(short(p) for p in mans)))
+    # every atomic_write is one of these or the ManagedDirectory delegation
+    for (b, bi, t) in prog.who_calls(aw):
+        leaves = arg_provenance(b, t, 1)
+        statics = {l[1] for l in leaves if l[0] == "static"}
+        if b.id == MD + "atomic_write":
+            okk = leaves == {("param", 2)}
+            rep.check(okk, R, "ManagedDirectory::atomic_write forwards its own path", "delegation", "ManagedDirectory::atomic_write writes another path than the one it was given (%s)" % fmt_leaves(leaves), site=site(b, bi))
             continue
-        for b, t in calls_to(prog, body, aw):
-            leaves = arg_provenance(body, t, 1)
-            statics = {l[1] for l in leaves if l[0] == "static"}
-            other = {l for l in leaves if l[0] not in ("static",)}
-            rep.check(statics == {static} and not other, "C01-R2", "%s: atomic_write path is %s" % (short(fid), static.split("::")[-1]),
-                      "path argument flows only from static %s" % static,
-                      "path argument of atomic_write flows from %s, expected only static %s" % (fmt_leaves(leaves), static),
-                      site=site(body, b))
-    sm_allowed = {
-        SU + "SegmentUpdater::save_metas": "the updater's own commit/merge publication",
-        SU + "merge_filtered_segments": "offline merge into a fresh index",
-        "tantivy::index::index::save_new_metas": "index creation",
-        "tantivy::indexer::single_segment_index_writer::SingleSegmentIndexWriter::<D>::finalize_inner": "single-segment writer finalisation",
-    }
-    rule_who_may_call(rep, prog, "C01-R2", {SU + "save_metas"}, "save_metas", sm_allowed)
+        other = {l for l in leaves if l[0] != "static"}
+        rep.check(statics in ({META}, {MANAGED}) and not other, R, "%s: atomic_write path is a fixed metadata file" % short(b.id), "path <- static %s" % sorted(x.split("::")[-1] for x in statics),
+                  "`%s` atomically replaces a path that is not META_FILEPATH / MANAGED_FILEPATH (%s)" % (b.id, fmt_leaves(leaves)), site=site(b, bi))
 
 
 def r5(rep, prog):
@@ -185,8 +236,20 @@ def r4(rep, prog):
     rule_precede(rep, prog, R, fid, ENDM, SAVE, "SegmentManager::end_merge", "SegmentUpdater::save_metas")
     rule_between(rep, prog, R, fid, SAVE, SAVE, GC, "call of save_metas", "save_metas", "garbage_collect_files")
     # SegmentUpdater::save_metas: in-memory active meta only after the file write succeeded
-    rule_precede(rep, prog, R, SU + "SegmentUpdater::save_metas", {SU + "save_metas"}, {SU + "SegmentUpdater::store_meta"},
-                 "save_metas (file)", "store_meta (memory)")
+    store_meta_after_publish(rep, prog, R)
+
+
+def store_meta_after_publish(rep, prog, R):
+    """the in-memory active meta is replaced only after the file was published: in every
+    function that calls store_meta, it is dominated by the Ok-continuation of a call into the
+    publisher (or a wrapper that must-passes it)"""
+    pubs = set(meta_publishers(prog))
+    PC = pubs | must_closure(prog, pubs)
+    STORE = {SU + "SegmentUpdater::store_meta"}
+    sites_ = prog.who_calls(STORE)
+    rep.floor(R, "callers of store_meta", len({b.id for b, _, _ in sites_}), 1)
+    for fid in sorted({b.id for b, _, _ in sites_}):
+        rule_precede(rep, prog, R, fid, PC, STORE, "the meta.json publisher", "store_meta (memory)", key="%s: meta.json published before store_meta (memory)" % short(fid))
 
 
 def r7(rep, prog):
